@@ -48,3 +48,11 @@ ENTRY["trusted_base"] = ENTRY["trusted_base"] + ["translator T-const (extract-qb
 from vlib import snippet_C03wrap as _w4
 ENTRY["streams"] = ENTRY["streams"] + [dict(_w4.STREAM, seeds_quick=1)]
 ENTRY["monitor_sigs"] = ENTRY["monitor_sigs"] + ["conswrap:round_timer_of_other_duty", "conswrap:stuck", "conswrap:no_run_started"]
+
+# the timed composition (good round + round-timer arithmetic => decision within a rotation of wall-clock rounds) as theorems
+# about a timed cluster semantics over Qbft.step and the production timer objects (Model/QbftTimed.lean, Props/C04Timed.lean)
+from vlib import snippet_C04timed as _tm
+ENTRY.setdefault("lean_props_extra", []).append(_tm.EXTRA_LEAN)
+ENTRY["trusted_base"] = ENTRY["trusted_base"] + _tm.TRUSTED_BASE
+ENTRY["assumptions"] = ENTRY["assumptions"] + _tm.ASSUMPTIONS
+ENTRY["level_text"] += " Third session: " + _tm.LEVEL_NOTE
